@@ -198,7 +198,8 @@ impl Arena {
 
     #[allow(clippy::mut_from_ref)]
     pub fn alloc_uninit_slice<T>(&self, count: usize) -> &mut [MaybeUninit<T>] {
-        let bytes = mem::size_of::<T>() * count;
+        // The byte count must not wrap: the slice below is built from `count`.
+        let bytes = mem::size_of::<T>().checked_mul(count).ok_or(AllocError).unwrap();
         let alignment = mem::align_of::<T>();
         let ptr = self.alloc_raw(bytes, alignment).unwrap();
         unsafe { slice::from_raw_parts_mut(ptr.cast().as_ptr(), count) }
